@@ -166,10 +166,22 @@ def find_cases(nodes, ctx, found):
 
 
 def source_for(idx, levels, inside_rule, rng=None):
+    """Source of one case.  With `rng`, queries are written in a random spelling (keyword case,
+    interpolation) — but ONE spelling per distinct query within the case: grass decides which
+    enclosing @media rules a merged rule may pass through by comparing query TEXT, so two
+    spellings of one query would be two different queries for that purpose while the model
+    compares the parsed (case-normalised) queries."""
     inner = f"i: {idx}" if inside_rule else f"x {{ i: {idx} }}"
     s = inner
+    spelled = {}
+
+    def qs(q):
+        if q not in spelled:
+            spelled[q] = spell(q_text(q), rng) if rng else q_text(q)
+        return spelled[q]
+
     for l in reversed(levels):
-        s = f"@media {spell(l_text(l), rng) if rng else l_text(l)} {{ {s} }}"
+        s = f"@media {', '.join(qs(q) for q in l)} {{ {s} }}"
     return f"x {{ {s} }}" if inside_rule else s
 
 
